@@ -18,12 +18,14 @@ import (
 	"fmt"
 	"io"
 	"os"
+	"os/signal"
 	"path"
 	"path/filepath"
 	"runtime"
 	"sort"
 	"strings"
 	"sync"
+	"syscall"
 	"time"
 
 	slug "github.com/hashicorp/go-slug"
@@ -45,6 +47,8 @@ type EntrySpec struct {
 type UnpackCase struct {
 	Reuse   bool        `json:"reuse,omitempty"` // the Packer value has been used on another tree before
 	WarmDir string      `json:"warm_dir,omitempty"` // ... namely this one (outside the arena)
+	Allow   []string    `json:"allow,omitempty"`    // AllowSymlinkTarget entries of the Packer (relative ones are relative to dst)
+	WriteLimit int      `json:"write_limit,omitempty"` // files in dst cannot grow beyond this many bytes (RLIMIT_FSIZE in the child)
 	Init    *TNode      `json:"init"` // the whole root
 	Dst     string      `json:"dst"`
 	Entries []EntrySpec `json:"entries"`
@@ -146,9 +150,15 @@ func (f *faultReader) Read(p []byte) (int, error) {
 type faultWriter struct {
 	buf    bytes.Buffer
 	failAt int
+	onFirst func() // runs once, at the first Write: something else happening while Pack is at work
 }
 
 func (f *faultWriter) Write(p []byte) (int, error) {
+	if f.onFirst != nil {
+		g := f.onFirst
+		f.onFirst = nil
+		g()
+	}
 	if f.failAt >= 0 && f.buf.Len()+len(p) > f.failAt {
 		k := f.failAt - f.buf.Len()
 		if k < 0 {
@@ -185,6 +195,14 @@ func childMain() {
 		case "unpack":
 			r := &faultReader{r: bytes.NewReader(req.Slug), failAt: req.FailAt, trunc: req.Trunc}
 			var err error
+			if req.WriteLimit > 0 {
+				// the destination runs out of room: writes beyond this many bytes per file fail (EFBIG)
+				signal.Ignore(syscall.SIGXFSZ)
+				lim := syscall.Rlimit{Cur: uint64(req.WriteLimit), Max: uint64(req.WriteLimit)}
+				if e := syscall.Setrlimit(syscall.RLIMIT_FSIZE, &lim); e != nil {
+					childFail("setrlimit: " + e.Error())
+				}
+			}
 			if warm != nil {
 				err = warm.Unpack(r, req.Dst)
 			} else if len(req.Allow) > 0 {
@@ -210,6 +228,11 @@ func childMain() {
 				verifhooks.ParseIgnoreFileContent(strings.NewReader(h))
 			}
 			w := &faultWriter{failAt: req.FailAt}
+			if req.Interleave != "" {
+				// another rule file is parsed while this Pack is under way (as a concurrent Pack would do)
+				text := req.Interleave
+				w.onFirst = func() { verifhooks.ParseIgnoreFileContent(strings.NewReader(text)) }
+			}
 			var meta *slug.Meta
 			var err error
 			if req.Legacy {
@@ -302,6 +325,10 @@ func genHostileEntries(rng *Rng) []EntrySpec {
 	var es []EntrySpec
 	for i := 0; i < n; i++ {
 		e := EntrySpec{Name: rng.Pick(hostileNames), Mode: int64([]int{0o644, 0o755, 0o600, 0o444, 0o777}[rng.Intn(5)]), Mtime: 1000000000 + int64(rng.Intn(1000))}
+		if rng.Chance(12) {
+			// file-type bits in the numeric mode field that contradict the type flag (S_IFLNK, S_IFDIR, S_IFIFO, S_IFREG)
+			e.Mode |= int64([]int{0o120000, 0o040000, 0o010000, 0o100000}[rng.Intn(4)])
+		}
 		switch k := rng.Intn(10); {
 		case k < 4:
 			e.Type = "0"
@@ -342,6 +369,16 @@ func genHostileTemplate(rng *Rng) []EntrySpec {
 		if rng.Chance(40) {
 			es = append(es, mk(strings.TrimPrefix(es[0].Name, "/")+"/x", "0", ""))
 		}
+		return es
+	}
+	if rng.Chance(8) {
+		// an empty directory (queued for the deferred restore), then a link of the same name that leads out through a second link
+		return []EntrySpec{mk("a/up", "2", ".."), mk("d/", "5", ""), mk("d", "2", "a/up/..")}
+	}
+	if rng.Chance(8) {
+		// a link that leads out (through a second link), then a regular entry of the same name whose mode field says "symlink"
+		es := []EntrySpec{mk("a/up", "2", ".."), mk("l", "2", "a/up/../victim"), mk("l", "0", "")}
+		es[2].Mode |= 0o120000
 		return es
 	}
 	if rng.Chance(15) {
@@ -757,7 +794,7 @@ func runUnpackCase(c *UnpackCase, work string) (*UnpackObs, []Violation) {
 	obs := &UnpackObs{}
 	obs.Decoded, _ = decodeSlug(slugBytes)
 	obs.Before = snapshot(R)
-	resp := runChild(&ChildReq{Op: "unpack", Root: R, Uid: c.Uid, Dst: c.Dst, Slug: slugBytes, FailAt: c.FailAt, Trunc: c.Trunc, Reuse: c.Reuse, WarmDir: c.WarmDir}, 20*time.Second)
+	resp := runChild(&ChildReq{Op: "unpack", Root: R, Uid: c.Uid, Dst: c.Dst, Slug: slugBytes, FailAt: c.FailAt, Trunc: c.Trunc, Reuse: c.Reuse, WarmDir: c.WarmDir, Allow: c.Allow, WriteLimit: c.WriteLimit}, 20*time.Second)
 	obs.After = snapshot(R)
 	obs.Err, obs.Illegal, obs.Panic, obs.Timeout, obs.Crashed = resp.Err, resp.Illegal, resp.Panic, resp.Timeout, resp.Crashed
 	var vs []Violation
@@ -819,6 +856,24 @@ func runUnpackCase(c *UnpackCase, work string) (*UnpackObs, []Violation) {
 			continue // a loop resolves nowhere; escapes through pre-existing links are not Unpack's doing
 		}
 		if !underPath(phys, dstComps) {
+			// a target the caller allow-listed (exactly, or below an allow-listed directory; relative entries count from dst) may lie outside
+			lexAbs := path.Clean(path.Join(path.Dir("/"+p), a.Target))
+			if strings.HasPrefix(a.Target, "/") {
+				lexAbs = path.Clean(a.Target)
+			}
+			okAllowed := false
+			for _, al := range c.Allow {
+				pre := al
+				if !strings.HasPrefix(pre, "/") {
+					pre = path.Join(c.Dst, pre)
+				}
+				if lexAbs == pre || strings.HasPrefix(lexAbs, strings.TrimSuffix(pre, "/")+"/") {
+					okAllowed = true
+				}
+			}
+			if okAllowed {
+				continue
+			}
 			sig := []string{}
 			// signature of the known finding: lexically inside, physically outside through another link
 			lex := path.Clean(path.Join(path.Dir("/"+p), a.Target))
@@ -828,6 +883,15 @@ func runUnpackCase(c *UnpackCase, work string) (*UnpackObs, []Violation) {
 			vs = append(vs, viol("C04", fmt.Sprintf("after Unpack, link %s -> %q resolves to /%s, outside the destination %s", p, a.Target, strings.Join(phys, "/"), c.Dst), sig...))
 		}
 	}
+	// ---- C12 (destination half): a write that cannot be completed is reported ----
+	if c.WriteLimit > 0 {
+		for _, e := range obs.Decoded {
+			if (e.Type == "0" || e.Type == "\x00") && len(e.Body) > c.WriteLimit && resp.Err == "" {
+				vs = append(vs, viol("C12", fmt.Sprintf("the destination could not hold %q (%d bytes, file size limit %d) but Unpack returned success", e.Name, len(e.Body), c.WriteLimit)))
+				break
+			}
+		}
+	}
 	// ---- C15: reference interpreter (well-formed archives, no read fault) ----
 	obs.FinalDst = map[string]SnapEntry{}
 	for p, a := range obs.After {
@@ -835,7 +899,7 @@ func runUnpackCase(c *UnpackCase, work string) (*UnpackObs, []Violation) {
 			obs.FinalDst[strings.TrimPrefix(strings.TrimPrefix(p, dstRel), "/")] = a
 		}
 	}
-	if !c.Hostile && c.FailAt < 0 {
+	if !c.Hostile && c.FailAt < 0 && c.WriteLimit == 0 {
 		want, defined, mustFail := refUnpack(obs.Before, dstRel, obs.Decoded)
 		if defined && mustFail && resp.Err == "" {
 			vs = append(vs, viol("C15", "archive contains an entry of an unsupported type (hard link, device, fifo) but Unpack reported success"))
@@ -933,12 +997,24 @@ func runUnpackStream(o *Opts) {
 		}
 		if hostile {
 			c.Entries = genHostileEntries(rng)
+			if rng.Chance(15) {
+				// allow-listed locations outside dst: absolute, relative to dst, one or two levels up
+				c.Allow = []string{rng.Pick([]string{"/w/victim", "../victim", "../../shared/", "../shared", "/w/dst-evil/", "../dst-evil"})}
+				depth := rng.Pick([]string{"", "a/", "a/b/"})
+				up := strings.Repeat("../", strings.Count(depth, "/"))
+				c.Entries = append(c.Entries, EntrySpec{Name: depth + "al", Type: "2", Link: up + rng.Pick([]string{"../victim", "../../shared/x", "../shared/x", "../dst-evil/x", "../dst-evil"}), Mode: 0o777, Mtime: 1000000000})
+			}
 			if c.Reuse && rng.Chance(30) {
 				// a link into the tree the Packer value worked on before
 				c.Entries = append(c.Entries, EntrySpec{Name: rng.Pick([]string{"wl", "a/wl"}), Type: "2", Link: c.WarmDir + rng.Pick([]string{"/d/f", "", "/l"}), Mode: 0o777, Mtime: 1000000000})
 			}
 		} else {
 			c.Entries = genGoodEntries(rng)
+			if rng.Chance(6) {
+				// the destination cannot hold one of the files
+				c.WriteLimit = 16
+				c.Entries = append(c.Entries, EntrySpec{Name: rng.Pick([]string{"big", "a/big"}), Type: "0", Body: strings.Repeat("0123456789", 4), Mode: 0o644, Mtime: 1000000000})
+			}
 		}
 		if rng.Chance(30) {
 			c.Uid = 65534
@@ -990,10 +1066,15 @@ func runUnpackStream(o *Opts) {
 		}
 		cs := Case{Desc: unpackDesc{r.c, r.obs}, Key: hex.EncodeToString(h[:8]), Kind: kind,
 			Nontrivial: len(r.c.Entries) >= 2, Viol: r.vs}
-		if r.obs.Crashed == "" && r.c.FailAt < 0 && !o.Focus && unpackInModel(r.c, r.obs) {
+		if r.obs.Crashed == "" && r.c.FailAt < 0 && r.c.WriteLimit == 0 && !o.Focus && unpackInModel(r.c, r.obs) {
 			final := snapToTree(r.obs.After)
-			cs.Coq = fmt.Sprintf("CUnpack %s %s %s %s %s %s", coqBool(r.c.Uid == 0), coqNode(r.c.Init), coqStr(r.c.Dst),
-				coqEntries(r.obs.Decoded), unpackResultCoq(r.obs), coqNode(final))
+			if len(r.c.Allow) > 0 {
+				cs.Coq = fmt.Sprintf("CUnpackA %s %s %s %s %s %s %s", coqBool(r.c.Uid == 0), coqStrList(r.c.Allow), coqNode(r.c.Init), coqStr(r.c.Dst),
+					coqEntries(r.obs.Decoded), unpackResultCoq(r.obs), coqNode(final))
+			} else {
+				cs.Coq = fmt.Sprintf("CUnpack %s %s %s %s %s %s", coqBool(r.c.Uid == 0), coqNode(r.c.Init), coqStr(r.c.Dst),
+					coqEntries(r.obs.Decoded), unpackResultCoq(r.obs), coqNode(final))
+			}
 		}
 		sink.Add(cs)
 		if r.obs.Crashed != "" && len(sink.res.Notes) < 5 {
